@@ -84,16 +84,32 @@ def make(i, base_seed, tier, lite=False):
             ops.append({"op": rng.choice(["uut_load_ack", "peer_load_ack"]), "pipe": rng.choice(scn["pipes"]), "n": rng.randint(1, 32),
                         "seed": rng.getrandbits(16)})
         else:
-            a = rng.choice(ACC if lite else ACC + ["get_pl"])
+            a = rng.choice(ACC if lite else ACC + ["get_pl", "set_arc"])
             op = {"op": a}
             if a == "get_pl":
                 op["pipe"] = rng.randrange(6)
+            elif a == "set_arc":
+                op["v"] = rng.choice([0, 1, 2, 3, 5, 7, 8, 9, 12, 15])
             if a == "fifo":
                 op["about_tx"] = rng.random() < 0.5
                 op["check_empty"] = rng.choice([None, True, False])
             elif a in ("clear", "interrupt_config"):
                 op["args"] = [rng.random() < 0.5 for _ in range(3)]
             ops.append(op)
+    if not lite and not scn["ackpl"] and "dynmask" not in scn and xr.random() < 0.15:
+        # ACK payloads switched on at run time (the radio had been used without them - with static lengths in half of these runs): from
+        # then on pipe 0 is dynamic, acknowledgements may carry payloads, and the accessors go on describing the FIFOs as they are
+        k_ = xr.randrange(len(ops) + 1)
+        tail = []
+        for _ in range(xr.randint(2, 6)):
+            r_ = xr.random()
+            if r_ < 0.3:
+                tail.append({"op": "peer_load_ack", "pipe": 1, "n": xr.randint(1, 32), "seed": xr.getrandbits(16)})
+            elif r_ < 0.6:
+                tail.append({"op": "uut_send", "n": xr.randint(1, 32), "deaf": False, "seed": xr.getrandbits(16), "so": True})
+            else:
+                tail.append({"op": xr.choice(["any", "read", "available", "pipe", "update", "fifo"]), "about_tx": False, "check_empty": None})
+        ops[k_:k_] = [{"op": "ack_on"}] + tail
     scn["ops"] = ops
     return scn
 
@@ -139,6 +155,7 @@ def _run(scn, w, res):
     def dyn_rx(p):
         return dyn if mask is None else bool(mask >> p & 1)
     dyn_tx = dyn_rx(0)
+    ack_now = bool(scn["ackpl"])
     if lite:
         uut.payload_length = scn["pl"][0]
     else:
@@ -233,6 +250,25 @@ def _run(scn, w, res):
             before = len(ru.tx_fifo)
             uut.write(_bytes(op["seed"], n), write_only=True)  # its return value is not part of C10
             traffic += 1
+        elif o == "ack_on":
+            if ack_now or lite:
+                continue
+            uut.ack = True           # documented: switches dynamic payloads and auto-ack on for pipe 0
+            peer.ack = True
+            peer.dynamic_payloads = True
+            if mask is None:
+                mask = 0x3F if dyn else 0
+            mask |= 1
+            dyn_tx = True
+            ack_now = True
+            sim.count("ack_payloads_enabled_at_run_time")
+        elif o == "set_arc":
+            uut.arc = op["v"]      # (a configuration change: what the last transmission needed stays what it was)
+            got = uut.last_tx_arc
+            if got != ru.arc_cnt:
+                res.add("arc", {"kind": "last_tx_arc", "after": "arc_changed"}, "arc = %d, then last_tx_arc = %r; the radio's last cycle made %d retransmissions" % (op["v"], got, ru.arc_cnt))
+        elif o in ("uut_load_ack", "peer_load_ack") and not ack_now:
+            continue
         elif o == "uut_load_ack":
             set_mode("rx")
             before = len(ru.tx_fifo)
